@@ -337,6 +337,7 @@ func (env *Env) run(c *Case) *Result {
 	var visits []Visit
 	var nvisit int
 	stopped := false
+	var cbRoot *gtree.Node // the root of the From-Root tree under test (for callbacks that call the library themselves)
 	cbErr := CallbackErr(c.Faults.CbErrKind)
 	callback := func(wn *gtree.WalkerNode) error {
 		if c.Sched.CbYieldUs > 0 {
@@ -356,8 +357,18 @@ func (env *Env) run(c *Case) *Result {
 		if c.Cancel.Kind == "atCallback" && idx >= c.Cancel.K {
 			cancel()
 		}
+		if c.Faults.CbNested && idx == 0 && cbRoot != nil {
+			// the callback uses the library itself: a massive-mode call on the very tree that is being walked
+			if err := gtree.OutputFromRoot(io.Discard, cbRoot, gtree.WithMassive(context.Background())); err != nil {
+				res.NestedErr = err.Error()
+			}
+		}
 		if c.Faults.CallbackFailAt >= 0 && idx == c.Faults.CallbackFailAt {
 			stopped = true
+			if c.Faults.CbErrKind == 8 && c.Opts.Massive {
+				// the callback ends its goroutine (what t.FailNow / t.Fatal / require.* do inside a callback)
+				runtime.Goexit()
+			}
 			return cbErr
 		}
 		return nil
@@ -443,6 +454,7 @@ func (env *Env) run(c *Case) *Result {
 			if c.Root != nil {
 				nodes = BuildRoot(*c.Root, c.Prog)
 				node = nodes[0]
+				cbRoot = nodes[0]
 				if c.UseSub > 0 && c.UseSub < len(nodes) {
 					node = nodes[c.UseSub]
 				}
@@ -459,6 +471,13 @@ func (env *Env) run(c *Case) *Result {
 						p = 0
 					}
 					nodes = append(nodes, nodes[p].Add(s.N))
+				}
+				for _, po := range c.MidOps { // operations after the tree has grown again (same tree, or another tree: "other-*")
+					if strings.HasPrefix(po, "other-") {
+						runPreOp(strings.TrimPrefix(po, "other-"), gtree.NewRoot("other").Add("x").Add("y"), base, env.Scratch)
+						continue
+					}
+					runPreOp(po, nodes[0], base, env.Scratch)
 				}
 			}
 		}
@@ -488,10 +507,14 @@ func (env *Env) run(c *Case) *Result {
 				return gtree.WalkFromRoot(node, callback, opts...)
 			}
 		case "walkiter":
+			// the caller's option slice has spare capacity, and the caller goes on using it: after the iterator has been
+			// made, another option is appended to the same backing array (for some other call)
+			opts = append(make([]gtree.Option, 0, len(opts)+4), opts...)
 			seq := gtree.WalkIterFromRoot(node, opts...)
 			if alias {
 				seq = gtree.WalkIterProgrammably(node, opts...)
 			}
+			_ = append(opts, gtree.WithBranchFormatLastNode("<foreign>", "<foreign>"), gtree.WithBranchFormatIntermedialNode("<foreign>", "<foreign>"))
 			for _, s := range c.LateProg { // the tree grows between creating the iterator and ranging over it
 				p := s.P
 				if p < 0 || p >= len(nodes) {
